@@ -384,7 +384,117 @@ def conn_window_work(arg):
         if ok and len(hist) < depth:
             for o in DOFFS:
                 stack.append((hist + (o,), damaged))
-    return nodes, total, viols
+    # datagrams that carry SEVERAL messages (what a sender builds when a resend and new sends meet in one packet): every
+    # combination of fresh / already-received / older-than-the-window message numbers at every position of a datagram of
+    # 2-3 messages.  Per message: delivered exactly when its number was not received inside the 256-window, whatever
+    # travels in front of or behind it; afterwards the message window records exactly what arrived.
+    def dgram_multi(pseq, items):
+        if len(items) == 1:
+            body = _st.pack(">H", items[0][0]) + items[0][1]
+        else:
+            body = b"".join(_st.pack(">HHB", len(p), s, PacketType.APP.value) + p for s, p in items)
+        hdr = _st.pack(">4sLHHBHBL", b"FSOS", 5000, pseq, 0, PacketType.APP.value, len(body), len(items), 0)
+        return hdr + AESGCM(KEY).encrypt(hdr[:12], body, hdr)
+
+    def mm_flag(sig, hist, msg):
+        viols.setdefault(("conn-window", sig), [0, {"part": "conn-window", "start": start, "multi": True, "history": [list(h) for h in hist]}, msg])[0] += 1
+
+    import itertools as _it
+    FULL = [1, 2, 0, -1, -2, -3, -255, -256, -257, 300]
+    SMALL = [1, 0, -1, -2, -256]
+    TINY = [1, 0, -1]
+    level1 = [c for m in (2, 3) for c in _it.product(FULL, repeat=m)]
+    small1 = set(c for m in (2, 3) for c in _it.product(SMALL, repeat=m))
+    level2 = [c for c in _it.product(SMALL if depth < 4 else FULL, repeat=2)] + [c for c in _it.product(TINY if depth < 4 else SMALL, repeat=3)]
+    multi_hist = multi_dgrams = multi_msgs = 0
+    multi_classes = collections.Counter()
+    stack = [(c,) for c in reversed(level1)]      # smallest histories first: the first witness of a kind is the simplest one
+    while stack:
+        hist = stack.pop()
+        multi_hist += 1
+        conn = fresh()
+        ref = RefWindow(256)
+        pseq = 20
+        ok = True
+        nums = []
+        # the first datagram of the connection already carries two messages and leaves two gaps behind the newest number
+        for di, offs_ in enumerate((("first", 3),) + hist):
+            pseq += 1
+            items = []
+            wants = []
+            for pi, o in enumerate(offs_):
+                mseq = start if o == "first" else (ring_add(ref.cur, o) if o >= 0 else ring_add(ref.cur, o % RING))
+                in_window = ref.cur is not None and 0 <= ring_diff(ref.cur, mseq) <= 256
+                wants.append((ref.insert(mseq), in_window))
+                items.append((mseq, b"h%d.%d" % (di, pi)))
+            nums.append([s for s, _ in items])
+            before = len(conn.incoming_messages)
+            multi_dgrams += 1
+            multi_msgs += len(items)
+            total += 1
+            try:
+                d = dgram_multi(pseq, items)
+                conn._recv_datagram(PacketHeader.from_bytes(True, d), d)
+            except Exception as e:
+                mm_flag("_recv_datagram raises %s on a datagram of several messages" % type(e).__name__, nums, repr(e))
+                ok = False
+                break
+            handed = [p for _, p in conn.incoming_messages[before:]]
+            dups = [pi for pi, (wd, _) in enumerate(wants) if wd]
+            if di:
+                multi_classes["%d msgs, duplicates at %s" % (len(items), ",".join(map(str, dups)) or "-")] += 1
+            for pi, ((mseq, p), (want_dup, in_window)) in enumerate(zip(items, wants)):
+                got = handed.count(p)
+                if got == (0 if want_dup else 1):
+                    continue
+                if not dups or want_dup:
+                    rel = "in a datagram of several messages"
+                elif min(dups) < pi:
+                    rel = "packed BEHIND an already-received message in one datagram"
+                else:
+                    rel = "packed in front of an already-received message in one datagram"
+                if want_dup:
+                    sig = "a message %s is delivered although its number was already received inside the window" % rel
+                elif got == 0:
+                    sig = "a message %s is dropped as duplicate although its number was never received %s" % (rel, "inside the window" if in_window else "(newer than / older than everything in the window)")
+                else:
+                    sig = "a message %s is delivered %d times" % (rel, got)
+                mm_flag(sig, nums, "datagrams carry message numbers %r: message %d of the last one (number %d) handed to the application %d time(s), reference duplicate=%s (duplicates of that datagram at positions %r)" % (
+                    nums, pi + 1, mseq, got, want_dup, dups))
+                ok = False
+                break
+            if not ok:
+                break
+            # the window afterwards
+            if int(conn.bitfield_msg.current_seqnum) != ref.cur:
+                mm_flag("the newest message number is wrong after a datagram of several messages", nums, "newest=%d reference %d after %r" % (conn.bitfield_msg.current_seqnum, ref.cur, nums))
+                ok = False
+                break
+            if len(hist) == 1:
+                probe = [ring_add(ref.cur, k % RING) for k in range(-260, 4)]
+            else:
+                probe = sorted({ring_add(s, k % RING) for ns in nums for s in ns for k in (-1, 0, 1)} | {ring_add(ref.cur, k % RING) for k in (-258, -257, -256, -255, 1)})
+            for q in probe:
+                if conn.bitfield_msg.contains(SeqNum(q)) != ref.contains(q):
+                    k_ = [i for i, s in enumerate(nums[-1]) if s == q]
+                    behind = bool(k_) and any(x < k_[0] for x in dups)
+                    mm_flag("the message window does not record exactly what arrived: a message number %s is %s" % (
+                        ("that arrived BEHIND an already-received message in one datagram" if behind else "of a datagram of several messages") if ref.contains(q) else "that never arrived",
+                        "not recorded as received" if ref.contains(q) else "recorded as received"), nums,
+                        "datagrams carry message numbers %r: afterwards contains(%d)=%s, reference %s (newest %d)" % (nums, q, conn.bitfield_msg.contains(SeqNum(q)), ref.contains(q), ref.cur))
+                    ok = False
+                    break
+            if not ok:
+                break
+            if not conn.bitfield_pkt.contains(SeqNum(pseq)):
+                mm_flag("an accepted datagram of several messages is not recorded in the datagram window", nums, "datagram number %d after %r" % (pseq, nums))
+                ok = False
+                break
+        if ok and len(hist) == 1 and hist[0] in small1:
+            for c in reversed(level2):
+                stack.append(hist + (c,))
+    nodes += multi_hist
+    return nodes, total, viols, {"histories": multi_hist, "datagrams": multi_dgrams, "messages": multi_msgs, "classes": dict(multi_classes)}
 
 
 # ---------------------------------------------------------------------------
@@ -491,6 +601,10 @@ def run(tier, seed):
     cw_total = sum(r[1] for r in res)
     for r in res:
         fold(r[2])
+    cw_multi = {"histories": sum(r[3]["histories"] for r in res), "datagrams": sum(r[3]["datagrams"] for r in res), "messages": sum(r[3]["messages"] for r in res)}
+    cw_multi_classes = collections.Counter()
+    for r in res:
+        cw_multi_classes.update(r[3]["classes"])
     # part 3
     plist = [(d, size, retry, order, lat) for d in ("c2s", "s2c") for size, retry in ((30, "none"), (30, "best"), (1700, "retry"))
              for order, lat in ((("cs", 1), ("sc", 0)) if tier == "quick" else (("cs", 1), ("sc", 0), ("cs", 0), ("sc", 1)))]
@@ -505,11 +619,15 @@ def run(tier, seed):
     rep.coverage = {
         "states": bf_states + st.points, "transitions": bf_trans + st.steps, "traces_validated_against_impl": bf_trans + st.executions,
         "seqnum_pairs": n_seq, "seqnum_offsets": len(offsets(tier)), "seqnum_chain_steps": n_chain,
-        "bitfield": bf_rows, "conn_window_histories": cw_nodes, "conn_window_datagrams": cw_total, "wire_executions": st.executions, "wire_capped": st.capped, "wire_by_deviations": st.by_cost,
+        "bitfield": bf_rows, "conn_window_histories": cw_nodes, "conn_window_datagrams": cw_total,
+        "conn_window_multi_message_histories": cw_multi["histories"], "conn_window_multi_message_datagrams": cw_multi["datagrams"], "conn_window_multi_message_messages": cw_multi["messages"],
+        "conn_window_multi_message_classes": dict(sorted(cw_multi_classes.items())), "wire_executions": st.executions, "wire_capped": st.capped, "wire_by_deviations": st.by_cost,
         "evaluations": n_seq + bf_trans + cw_total + st.executions, "distinct_nontrivial": bf_states + len(st.outcomes),
         "rule": "seqnum: all 65535 values x %d offsets (1,2,31..33,255..257,32765..32767 and every %dth up to 32767) + successor chain over two laps; "
                 "bitfield: BFS per (width, start) hashed on (newest, bits), alphabet = insert(newest+o) for offsets around 0, +-width and far jumps, contains() compared on +-(w+3) after every insert; "
                 "conn-window: every sequence of <=3 (quick) / 4 message-number offsets (+-1,2,255..257,300,0) and of datagram-number offsets (+-1,2,31..33,40,0) fed to a keyed ConnectionBase as sealed datagrams, 4 start positions incl. the wrap; "
+                "conn-window, several messages per datagram: after a first datagram of two messages every datagram of 2-3 messages with numbers newest+{1,2,0,-1,-2,-3,-255,-256,-257,300} at every position "
+                "(fresh / already received / older than the window, duplicate first, in the middle, last), followed by every second such datagram over a smaller alphabet; per message delivered iff not received inside the window, window compared with the reference afterwards; "
                 "wire: every header emitted in every <=2-deviation execution of %d configurations" % (len(offsets(tier)), 1021 if tier == "quick" else 29, len(plist)),
         "exhaustive": not st.capped,
         "samples": [{"seqnum": {"a": 65535, "d": 32767}}, {"bitfield": {"width": 8, "history": ["insert 65530", "insert cur+7", "insert cur-8", "insert cur-10"]}}] + st.samples[:2],
@@ -525,7 +643,7 @@ def replay_conn_window(witness):
 
 def replay(witness):
     if witness.get("part") == "conn-window":
-        n, t, viols = conn_window_work((witness["start"], 4))
+        viols = conn_window_work((witness["start"], 4))[2]
         return [core.Violation(k[0], k[1], v[1], v[2]) for k, v in viols.items()]
     part = witness.get("part")
     if part == "seqnum":
